@@ -11,7 +11,7 @@ LEVEL = "proof"
 LEAN_IMPORTS = ["WM.Props.C06"]
 THEOREMS = ["WM.C06.content", "WM.C06.buildOnce_content", "WM.C06.partition_invisible", "WM.C06.postings_content",
             "WM.C06.layout_invisible", "WM.C06.postings_renumber", "WM.C06.postings_canonical", "WM.C06.stats",
-            "WM.C06.optimize_purges", "WM.C06.group_adjacent", "WM.C06.group_history"]
+            "WM.C06.optimize_purges", "WM.C06.readd_after_optimize", "WM.C06.group_adjacent", "WM.C06.group_history"]
 PARTIAL = {
     "WM.C06.partition_invisible": "proved for partitions of a session's *additions* (any cut of a list of add_document calls "
                                   "into commits, and commit-then-add after arbitrary calls); moving a commit across a deletion "
@@ -30,7 +30,10 @@ PARTIAL = {
 }
 RULE = ("one operation list (normalised sessions: schema changes, deletions, additions) executed under 3-5 histories: "
         "sessions cut into extra commits, merge kinds re-drawn among NO_MERGE/MERGE_SMALL/OPTIMIZE, no-op commits "
-        "inserted, codec block size / storage / packing re-drawn; non-trivial = at least two histories end in a "
+        "inserted, codec block size / storage / packing re-drawn; 40% of the worlds also through SerialMpWriter/MpWriter "
+        "(merged sub-segments) as one more history; every 8th world = the same documents committed as 1, 2, 3 segments, "
+        "then remove_field + optimize, then the name added again; schemas include a pure COLUMN field and a dynamic "
+        "(glob) field that is indexed, not stored, with lengths, vector and column; non-trivial = at least two histories end in a "
         "different number of segments or different doc numbering; distinct = distinct world")
 ASSUMPTIONS = c07.ASSUMPTIONS + [
     "codec bytes are abstracted: that a posting/stored/column/vector value survives a merge byte-for-byte is checked "
@@ -44,7 +47,7 @@ MANIFEST = {
                   "content; the live postings of the whole index are exactly those of the live documents (so the term index is "
                   "determined by the content); add_reader renumbers postings through docmap exactly; without deletions df/weight/"
                   "field length/doc count are functions of the content; OPTIMIZE purges deleted documents and removed "
-                  "fields. Tied to whoosh by running one op list under several histories/configurations and comparing "
+                  "fields, after which a removed field name is fresh again (add_field of it refines the dictionary). Tied to whoosh by running one op list under several histories/configurations and comparing "
                   "canonical dumps pairwise, with the model (layout, MERGE_SMALL decisions, postings by number) and the spec.",
     "level_note": "Histories are compared only where the dictionary semantics says they mean the same (deletions act on "
                   "committed documents only, so commits are inserted inside the additions of a session). Scores are compared "
@@ -68,6 +71,26 @@ def _base_world(seed_tuple):
         cfg = io.default_config()
         cfg["blocklimit"] = rng.choice([2, 128])
         return w, [(w, list(range(len(w["sessions"]))), cfg)]
+    if i % 8 == 3:
+        # remove_field + optimize, then the name is added again: the same documents committed as 1, 2, 3 segments
+        w, ninit = io.gen_purge_world(rng, ncuts=0)
+        variants = []
+        adds = w["sessions"][0][0]
+        for k in (0, 1, 2):
+            cuts = sorted(rng.sample(range(1, len(adds)), min(len(adds) - 1, k)))
+            ss, prev = [], 0
+            for c in cuts + [len(adds)]:
+                ss.append([adds[prev:c], ["commit", "nomerge"]])
+                prev = c
+            vw = dict(w, sessions=ss + w["sessions"][1:])
+            marks = [len(ss) - 1] + list(range(len(ss), len(ss) + len(w["sessions"]) - 1))
+            cfg = io.default_config()
+            cfg["blocklimit"] = rng.choice([1, 2, 128])
+            cfg["compound"] = rng.random() < 0.7
+            variants.append((vw, marks, cfg))
+            if len(adds) - 1 <= k:
+                break
+        return w, variants
     many = rng.random() < 0.4
     w = io.gen_world(rng, disciplined=True, schema_changes=rng.random() < 0.4, raw_docnums=False, normalized=True,
                      groups=rng.random() < 0.5, nsessions=rng.choice([6, 8, 10, 12]) if many else None,
@@ -87,6 +110,13 @@ def _base_world(seed_tuple):
         cfg["mmap"] = rng.random() < 0.7
         cfg["limitmb"] = rng.choice([128, 128, 0.0004, 0.002, 0.01])
         variants.append((vw, marks, cfg))
+    r = rng.random()
+    if r < 0.4 and not any(o[0] == "addbad" for ops, _ in w["sessions"] for o in ops):
+        # (a document that raises kills an MpWriter sub-process: C18's mp:sub-writer-failure scenario)
+        # "forall writer front-ends": the reference history through SerialMpWriter / MpWriter (merged sub-segments)
+        cfg = dict(io.default_config(), frontend="serialmp" if r < 0.3 else "mp", procs=rng.choice([2, 3]),
+                   batchsize=rng.choice([1, 2, 3]), multisegment=False, blocklimit=rng.choice([2, 128]))
+        variants.append((w, list(range(len(w["sessions"]))), cfg))
     return w, variants
 
 
@@ -96,7 +126,12 @@ def _run_case(seed_tuple):
     for vw, marks, cfg in variants:
         base = io.new_scratch("wverif-C06-")
         try:
-            real = io.run_real(vw, cfg, base, probes=PROBES, dump_at=set(marks))
+            if cfg.get("frontend", "plain") != "plain":
+                io.allow_children()
+                with io.Watchdog(120):
+                    real = io.run_frontend(vw, cfg, base, probes=PROBES, dump_at=set(marks))
+            else:
+                real = io.run_real(vw, cfg, base, probes=PROBES, dump_at=set(marks))
             real.pop("storage", None)
             out["runs"].append({"world": vw, "marks": marks, "cfg": cfg, "real": real})
         except Exception as e:  # noqa
@@ -191,7 +226,7 @@ def compare_layouts(ctx, case):
 
 
 def run(ctx):
-    n = ctx.budget(180, 2400)
+    n = ctx.budget(150, 2400)
     corpus = io.corpus_items(ID)
     ctx.stat("corpus-cases", len(corpus))
     seeds = corpus + [(ID, ctx.seed, ctx.tier, i) for i in range(n)]
@@ -207,6 +242,18 @@ def run(ctx):
             ctx.stat("crash:" + r["crash"].split(":")[0])
             ctx.violation("history raised " + r["crash"].split(":")[0], {"world": r["world"], "cfg": r["cfg"]},
                           "no exception", r["crash"] + "\n" + r.get("trace", ""), "a writer history raised")
+            continue
+        fe = r["cfg"].get("frontend", "plain")
+        if fe != "plain":
+            # against the specification only (the SegmentWriter layout model does not apply), then pairwise below
+            for si, (rs, ms) in enumerate(zip(r["real"]["sessions"], replies[fi])):
+                d = rs.get("dump")
+                if d is None or "error" in ms:
+                    continue
+                where = {"world": r["world"], "cfg": r["cfg"], "session": si, "label": "frontend-run"}
+                c07._against_spec(ctx, where, r["tables"], ms["spec"], io.expected_dump(r["tables"], ms["spec"]), d)
+                c07.optimize_purges(ctx, where, rs["end"], d)
+            ctx.stat("runs:" + fe)
             continue
         c07.check_case(ctx, ID, r, replies[fi], "layout-run")
         ctx.stat("runs")
@@ -226,7 +273,11 @@ def replay(ctx, rec):
             w["sessions"] = case[side]["sessions"]
             base = io.new_scratch("wverif-C06-")
             try:
-                real = io.run_real(w, case[side]["cfg"], base, probes=PROBES, dump_each=False)
+                if case[side]["cfg"].get("frontend", "plain") != "plain":
+                    io.allow_children()
+                    real = io.run_frontend(w, case[side]["cfg"], base, probes=PROBES)
+                else:
+                    real = io.run_real(w, case[side]["cfg"], base, probes=PROBES, dump_each=False)
                 real.pop("storage", None)
                 runs.append(real["sessions"][-1]["dump"])
             finally:
@@ -234,4 +285,23 @@ def replay(ctx, rec):
         print("A:", str(_canon(runs[0]))[:2000])
         print("B:", str(_canon(runs[1]))[:2000])
         return _canon(runs[0]) != _canon(runs[1]) or runs[0]["field_length"] != runs[1]["field_length"]
+    if case.get("cfg", {}).get("frontend", "plain") != "plain":
+        io.allow_children()
+        base = io.new_scratch("wverif-C06-")
+        try:
+            real = io.run_frontend(case["world"], case["cfg"], base, probes=PROBES)
+        except Exception as e:  # noqa
+            print("history raised: %r" % (e,))
+            return True
+        finally:
+            shutil.rmtree(base, ignore_errors=True)
+        r = {"world": case["world"], "cfg": case["cfg"], "real": real}
+        reply = c07._lean_batch(ctx, [r])[0]
+        for si, (rs, ms) in enumerate(zip(real["sessions"], reply)):
+            if rs.get("dump") is not None and "error" not in ms:
+                c07._against_spec(ctx, {"session": si}, r["tables"], ms["spec"], io.expected_dump(r["tables"], ms["spec"]),
+                                  rs["dump"])
+        for v in ctx.violations:
+            print(v["signature"], "expected:", str(v["expected"])[:500], "observed:", str(v["observed"])[:500])
+        return bool(ctx.violations)
     return c07.replay(ctx, rec)
